@@ -133,7 +133,12 @@ class GateReplacer(Visitor):
         new_parameters = {
             name: self.visit(param) for name, param in gate.parameters.items()
         }
-        new_gate = GateStatement(gate.gate_def, new_parameters)
+        if new_parameters:
+            # Calling the definition checks the substituted arguments
+            # against the gate's parameter kinds.
+            new_gate = gate.gate_def(**new_parameters)
+        else:
+            new_gate = gate.gate_def()
         return replace_gate(new_gate, self.macros)
 
     def visit_Parameter(self, param: Parameter):
